@@ -148,7 +148,7 @@ impl Driver {
         };
         Some(Driver { label: j.get("label")?.as_str()?.to_string(), setup, threads, l0, atomic_points: matches!(j.get("atomic_points"), Some(J::Bool(true))) })
     }
-    fn funcs(&self) -> Vec<&'static FnInfo> {
+    pub fn funcs(&self) -> Vec<&'static FnInfo> {
         let mut ids = BTreeSet::new();
         let mut visit = |o: &TOp| match o {
             TOp::Call { f, .. } | TOp::InvWith { f, .. } | TOp::InvAllWith { f, .. } | TOp::InvCache { f } | TOp::StatsGet { f } | TOp::StatsReset { f } => {
@@ -248,6 +248,8 @@ pub struct Prepared {
     pub events: Arc<Mutex<Vec<OpEvent>>>,
     /// thread-scope drivers: the execution pattern of each thread's program run alone on a fresh thread
     pub iso: Mutex<Option<Vec<Vec<(String, bool)>>>>,
+    /// cold-start driver: nothing was warmed up and nothing is reset (one execution per process)
+    pub cold: bool,
 }
 
 impl Prepared {
@@ -264,13 +266,19 @@ impl Prepared {
                 let _ = (f.call)(0);
             }
         }
-        Prepared { driver: driver.clone(), funcs, events: Arc::new(Mutex::new(Vec::new())), iso: Mutex::new(None) }
+        Prepared { driver: driver.clone(), funcs, events: Arc::new(Mutex::new(Vec::new())), iso: Mutex::new(None), cold: false }
+    }
+
+    /// no warm-up: the first calls (and with them the registration) happen inside the execution
+    pub fn new_cold(driver: &Driver) -> Prepared {
+        vsched::clock_freeze(START_NS);
+        Prepared { driver: driver.clone(), funcs: driver.funcs(), events: Arc::new(Mutex::new(Vec::new())), iso: Mutex::new(None), cold: true }
     }
 
     pub fn reset(&self) -> Result<(), String> {
         vsched::clock_freeze(START_NS);
         for f in &self.funcs {
-            if f.flavour != Flavour::Thread {
+            if f.flavour != Flavour::Thread && !self.cold {
                 l1::reset_cache(f)?;
             }
         }
@@ -326,7 +334,7 @@ impl Prepared {
         }
         l1::log_take();
         for f in &self.funcs {
-            if f.flavour != Flavour::Thread {
+            if f.flavour != Flavour::Thread && !self.cold {
                 cachelito_core::stats_registry::reset(f.name);
             }
         }
@@ -476,6 +484,10 @@ pub fn check_execution(p: &Prepared, out: &Outcome) -> Quiescent {
             if f.flavour == Flavour::Thread || f.has_inval_on {
                 continue;
             }
+            if p.cold && d.setup.iter().any(|s| matches!(s, SOp::Op(TOp::Call { f: ff, .. }) if *ff == f.id)) {
+                // cold start: the statistics of a warm sibling still contain its setup calls
+                continue;
+            }
             let calls: Vec<&OpEvent> = events.iter().filter(|e| matches!(&e.op, TOp::Call { f: ff, .. } if *ff == f.id)).collect();
             if let Some((h, m)) = l1::stats_of(f.name) {
                 let n = calls.len() as u64;
@@ -503,8 +515,24 @@ pub fn check_execution(p: &Prepared, out: &Outcome) -> Quiescent {
                 "false" => 0,
                 x => x.parse::<usize>().unwrap_or(usize::MAX),
             };
-            if got != w {
-                fs.push(TFinding { property: "C12", monitor: format!("{flav}/wrong-count-under-concurrency/{}", e.op.kind()), detail: format!("thread {} {} returned {}, {w} used caches match", e.thread, e.op.render(), e.result) });
+            // cold start: a cache counts as "used" once a call of it has returned before the request started;
+            // one whose first call overlaps the request may or may not be reached yet
+            let at_least = if p.cold {
+                let used_before = |f: &FnInfo| {
+                    events.iter().any(|c| matches!(&c.op, TOp::Call { f: ff, .. } if *ff == f.id) && c.end < e.start) || d.setup.iter().any(|s| matches!(s, SOp::Op(TOp::Call { f: ff, .. }) if *ff == f.id))
+                };
+                match &e.op {
+                    TOp::ByTag(x) => p.funcs.iter().filter(|f| f.flavour != Flavour::Thread && f.tags.contains(&x.as_str()) && used_before(f)).count(),
+                    TOp::ByEvent(x) => p.funcs.iter().filter(|f| f.flavour != Flavour::Thread && f.events.contains(&x.as_str()) && used_before(f)).count(),
+                    TOp::ByDep(x) => p.funcs.iter().filter(|f| f.flavour != Flavour::Thread && f.deps.contains(&x.as_str()) && used_before(f)).count(),
+                    TOp::InvCache { f } => usize::from(func(*f).has_meta() && used_before(func(*f))),
+                    _ => 0,
+                }
+            } else {
+                w
+            };
+            if got > w || got < at_least {
+                fs.push(TFinding { property: "C12", monitor: format!("{flav}/wrong-count-under-concurrency/{}", e.op.kind()), detail: format!("thread {} {} returned {}, {w} used caches match ({at_least} of them used before the request started)", e.thread, e.op.render(), e.result) });
             }
             if w > 0 && !stores_in_threads {
                 for f in p.funcs.iter().filter(|f| f.flavour != Flavour::Thread) {
@@ -962,5 +990,6 @@ pub fn drivers_for(property: &str, thorough: bool) -> Vec<Driver> {
         }
         _ => {}
     }
+    out.extend(crate::cold::drivers_for(property, thorough));
     out
 }
